@@ -21,8 +21,10 @@ def run(ctx):
         "bit-level malleability of signatures is not modelled",
         "entities, key IDs and keys are interchangeable in the specification; the harness assigns concrete names / "
         "key pairs to the labels by a permutation seeded from (seed, record), so symmetric behaviours are pruned",
-        "object values avoid floats and negative zero; member names avoid characters that need escaping in canonical "
-        "JSON (both are C01's subject: the pinned canonicaliser has known defects there)",
+        "number literals are part of the signed text as written (as in C01's reading): values include integers up to and "
+        "beyond 2^53, fractions and exponent spellings; two values opposed in a tamper always differ numerically, two "
+        "spellings of one number (1.0 / 1, -0 / 0) are never opposed, and SignJSON's output members are compared with "
+        "its input's by exact numeric value",
         "no duplicate member names",
     ]
     ctx.exhaustive = True
